@@ -1,8 +1,16 @@
 import PMV.Lemmas.GatherUn
+/-
+  The code-shaped `shrink` (array antimask, shrinking enabled), for every operand shape that
+  broadcasts into the grid `gpre ++ antimask.shape` (fewer axes than the antimask, unit axes,
+  leading axes) and with derivatives: the returned object stands for the operand on the
+  antimask.  Core Lean only.
+-/
 namespace PMV.Shrink
 open PMV
 set_option linter.unusedSectionVars false
 variable {K : Type} [Inhabited K]
+
+/-! ### shapes -/
 
 theorem bcastRev_prefix : ∀ (s t : List Nat), bcastRev s (s ++ t) = some (s ++ t)
   | [], t => by simp [bcastRev]
@@ -15,135 +23,440 @@ theorem maxShape_self : ∀ (s : Shape), maxShape s s = s
   | [] => rfl
   | n :: s => by simp [maxShape, maxShape_self s]
 
-/-- an operand whose trailing axes are exactly the antimask's needs no reconciliation -/
-theorem reconcile_aligned (a : Arr Bool) (x : Q K) (pre : Shape) (hx : x.obj.shape = pre ++ a.shape) :
-    reconcile a x = some (pre.length, a, x) := by
-  unfold reconcile
-  have h1 : ¬ (pre.length + a.shape.length < a.shape.length) := by omega
-  simp only [hx, List.length_append, h1, ↓reduceIte, Nat.add_sub_cancel, List.take_left',
-    List.drop_left', maxShape_self, ne_eq, not_true_eq_false]
+theorem valid_pos : ∀ (s : Shape) (i : Index), Valid s i → ∀ n ∈ s, 0 < n
+  | [], [], _, n, hn => by simp at hn
+  | [], _ :: _, h, _, _ => by simp [Valid] at h
+  | _ :: _, [], h, _, _ => by simp [Valid] at h
+  | m :: s, i :: is, h, n, hn => by
+    simp only [List.mem_cons] at hn
+    rcases hn with e | hn
+    · subst e; exact Nat.lt_of_le_of_lt (Nat.zero_le _) h.1
+    · exact valid_pos s is h.2 n hn
 
-theorem shrink_spec_aligned (df : Dflt K) (cfg : Cfg) (am : Arr Bool) (x x' : Q K) (pre gpre : Shape)
-    (hdis : cfg.disable = false) (hder : x.derivs = [])
-    (hx : x.obj.shape = pre ++ am.shape) (hG : bcast pre gpre = some gpre)
-    (h : shrink df cfg (.arr am) x = some x') :
-    ∀ p a, a ∈ trues am → Valid gpre p →
-      Cell.Same (x'.cellB (p ++ [rnk am a])) (x.cellB (p ++ a)) := by
-  intro p a ha hp
+/-- splitting a fit `s ++ t` into `g ++ u` with `|t| = |u|` -/
+theorem fit_split (s t g u : Shape) (h : t.length = u.length)
+    (hf : bcast (s ++ t) (g ++ u) = some (g ++ u)) : bcast s g = some g ∧ bcast t u = some u := by
+  rw [PMV.bcast_append _ _ _ _ h] at hf
+  cases h1 : bcast s g <;> simp only [h1] at hf
+  · cases hf
+  · next l =>
+    cases h2 : bcast t u <;> simp only [h2] at hf
+    · cases hf
+    · next m =>
+      have hm : m.length = u.length := by
+        have := PMV.bcast_length h2; omega
+      have := List.append_inj' (Option.some.inj hf) hm
+      exact ⟨by rw [this.1], by rw [this.2]⟩
+
+theorem fit_join (s t g u : Shape) (h : t.length = u.length)
+    (h1 : bcast s g = some g) (h2 : bcast t u = some u) : bcast (s ++ t) (g ++ u) = some (g ++ u) := by
+  rw [PMV.bcast_append _ _ _ _ h, h1, h2]
+
+/-- on axes of equal rank a shape that broadcasts into `A` without changing it is below `A` -/
+theorem maxShape_fit : ∀ (t A : Shape), t.length = A.length → bcast t A = some A →
+    (∀ n ∈ A, 0 < n) → maxShape t A = A
+  | [], [], _, _, _ => rfl
+  | [], _ :: _, h, _, _ => by simp at h
+  | _ :: _, [], h, _, _ => by simp at h
+  | x :: t, y :: A, h, hf, hp => by
+    have hl : t.length = A.length := by simpa using h
+    have := fit_split [x] t [y] A hl (by simpa using hf)
+    have ih := maxShape_fit t A hl this.2 (fun n hn => hp n (by simp [hn]))
+    have hy : 0 < y := hp y (by simp)
+    have hxy : max x y = y := by
+      have h1 := this.1
+      simp only [bcast, List.reverse_cons, List.reverse_nil, List.nil_append, bcastRev] at h1
+      split at h1
+      · next e => subst e; simp
+      · split at h1
+        · next e => subst e; omega
+        · split at h1
+          · next e1 e2 e3 => simp at h1; omega
+          · simp at h1
+    simp [maxShape, ih, hxy]
+
+/-- the broadcast of two shapes that fit a grid fits the grid -/
+theorem fit_bcast (a b g G : Shape) (hab : bcast a b = some g) (ha : bcast a G = some G)
+    (hb : bcast b G = some G) : bcast g G = some G := by
+  have := PMV.bcast_assoc a b G
+  simp [hab, hb, ha] at this
+  exact this
+
+/-! ### rank reconciliation -/
+
+theorem reconcile_spec (am : Arr Bool) (x : Q K) (gpre : Shape) (extras : Nat) (a2 : Arr Bool) (x2 : Q K)
+    (hwf : x.WF) (hfit : bcast x.obj.shape (gpre ++ am.shape) = some (gpre ++ am.shape))
+    (hpos : ∀ n ∈ am.shape, 0 < n)
+    (h : reconcile am x = some (extras, a2, x2)) :
+    ∃ pre, a2 = am ∧ extras = pre.length ∧ x2.obj.shape = pre ++ am.shape ∧
+      bcast pre gpre = some gpre ∧ x2.WF ∧ x2.keys = x.keys ∧ x2.cls = x.cls ∧ x2.obj.rep = x.obj.rep ∧
+      ∀ j, x2.cellB j = x.cellB j := by
+  unfold reconcile at h
+  -- first broadcast
+  have step1 : ∃ x1, (if x.obj.shape.length < am.shape.length then x.bto am.shape else some x) = some x1 ∧
+      am.shape.length ≤ x1.obj.shape.length ∧
+      bcast x1.obj.shape (gpre ++ am.shape) = some (gpre ++ am.shape) ∧ x1.WF ∧ x1.keys = x.keys ∧
+      x1.cls = x.cls ∧ x1.obj.rep = x.obj.rep ∧ ∀ j, x1.cellB j = x.cellB j := by
+    by_cases hlt : x.obj.shape.length < am.shape.length
+    · simp only [hlt, ↓reduceIte]
+      cases hb : x.bto am.shape with
+      | none => simp [hlt, hb] at h
+      | some x1 =>
+        obtain ⟨hs, hw, hk, hc, _, hcell⟩ := Q.bto_spec _ _ _ hwf hb
+        exact ⟨x1, rfl, by rw [hs]; exact Nat.le_refl _, by rw [hs]; exact bcast_suffix _ _, hw, hk, hc,
+          Q.bto_rep _ _ _ hb, hcell⟩
+    · simp only [hlt, ↓reduceIte]
+      exact ⟨x, rfl, by omega, hfit, hwf, rfl, rfl, rfl, fun _ => rfl⟩
+  obtain ⟨x1, he1, hrank, hfit1, hwf1, hk1, hc1, hr1, hcell1⟩ := step1
+  simp only [he1] at h
+  -- split the shape of x1
+  generalize hex : x1.obj.shape.length - am.shape.length = ex at h
+  have hsplit : x1.obj.shape = x1.obj.shape.take ex ++ x1.obj.shape.drop ex := (List.take_append_drop _ _).symm
+  have hlen : (x1.obj.shape.drop ex).length = am.shape.length := by simp; omega
+  have hf := fit_split _ _ _ _ hlen (by rw [← hsplit]; exact hfit1)
+  have hmax := maxShape_fit _ _ hlen hf.2 hpos
+  simp only [hmax, ← hsplit, ne_eq, not_true_eq_false, ↓reduceIte] at h
+  have hfin : maxShape (x1.obj.shape.drop ex) am.shape = am.shape := hmax
+  -- the after part broadcasts to the antimask's shape
+  by_cases hsame : x1.obj.shape = x1.obj.shape.take ex ++ am.shape
+  · simp only [hsame.symm, not_true_eq_false, ↓reduceIte, Option.some.injEq, Prod.mk.injEq] at h
+    obtain ⟨h1, h2, h3⟩ := h
+    subst h1 h2 h3
+    refine ⟨x1.obj.shape.take ex, rfl, ?_, hsame, hf.1, hwf1, hk1, hc1, hr1, hcell1⟩
+    simp; omega
+  · simp only [hsame, not_false_eq_true, ↓reduceIte] at h
+    cases hb : x1.bto (x1.obj.shape.take ex ++ am.shape) with
+    | none => simp [hb] at h
+    | some x2' =>
+      simp only [hb, Option.some.injEq, Prod.mk.injEq] at h
+      obtain ⟨h1, h2, h3⟩ := h
+      subst h1 h2 h3
+      obtain ⟨hs, hw, hk, hc, _, hcell⟩ := Q.bto_spec _ _ _ hwf1 hb
+      refine ⟨x1.obj.shape.take ex, rfl, ?_, hs, hf.1, hw, hk.trans hk1, hc.trans hc1,
+        (Q.bto_rep _ _ _ hb).trans hr1, fun j => (hcell j).trans (hcell1 j)⟩
+      simp; omega
+
+/-! ### the fully-masked test -/
+
+/-- if `gone?` answers True, every element the antimask selects is masked -/
+theorem gone_masked (am : Arr Bool) (x : Q K) (gpre : Shape)
+    (hfit : bcast x.obj.shape (gpre ++ am.shape) = some (gpre ++ am.shape))
+    (hg : gone? am x.obj = some true) (p a : Index) (ha : a ∈ trues am) (hp : Valid gpre p) :
+    (x.cellB (p ++ a)).m = true := by
   have hva := (mem_trues ha).1
   have hga := (mem_trues ha).2
   have hla := trues_length ha
-  have hvp : Valid pre (bidx pre p) := valid_bidx _ _ _ hG hp
-  have hi : Valid (pre ++ am.shape) (bidx pre p ++ a) := valid_append _ _ _ _ hvp hva
-  have hxB : x.cellB (p ++ a) = x.cellAt (bidx pre p ++ a) := by
-    simp only [Q.cellB, hx, bidx_append _ _ _ _ hla, bidx_valid _ _ hva]
-  unfold shrink shrinkG at h
+  simp only [gone?] at hg
+  simp only [Q.cellB, Q.cellAt, Obj.maskAt]
+  cases hr : x.obj.rep <;> simp only [hr] at hg ⊢
+  · simp only [Option.some.injEq, Bool.not_eq_eq_eq_not, Bool.not_true] at hg
+    rw [anyOver_of_mem (p := am.get) hva hga] at hg; cases hg
+  · cases hb : bcast am.shape x.obj.shape <;> simp only [hb, Option.map_none, Option.map_some] at hg
+    · cases hg
+    · next g =>
+      simp only [Option.some.injEq, Bool.not_eq_eq_eq_not, Bool.not_true] at hg
+      have hgG : bcast g (gpre ++ am.shape) = some (gpre ++ am.shape) :=
+        fit_bcast _ _ _ _ hb (bcast_suffix _ _) hfit
+      have hvi : Valid g (bidx g (p ++ a)) := valid_bidx _ _ _ hgG (valid_append _ _ _ _ hp hva)
+      have := anyOver_false_at hg hvi
+      simp only [bidx_comp_left _ _ _ _ hb, bidx_comp_right _ _ _ _ hb,
+        bidx_short am.shape p a (by omega), bidx_valid _ _ hva, hga, Bool.true_and, Obj.antiAt,
+        Obj.maskAt, hr, Bool.not_eq_false'] at this
+      exact this
+
+/-! ### gathering an aligned operand -/
+
+/-- shapes a shrunken operand can have: `()` or the kept leading axes plus the gathered axis -/
+def ShrFits (am : Arr Bool) (gpre : Shape) (s : Shape) : Prop :=
+  bcast s (gpre ++ [count am]) = some (gpre ++ [count am])
+
+theorem shrFits_nil (am : Arr Bool) (gpre : Shape) : ShrFits am gpre [] := PMV.bcast_nil_left _
+
+theorem shrFits_snoc (am : Arr Bool) (gpre pre : Shape) (h : bcast pre gpre = some gpre) :
+    ShrFits am gpre (pre ++ [count am]) :=
+  fit_join _ _ _ _ rfl h (PMV.bcast_self _)
+
+/-- the cache entry written by `shrink` refers to (a broadcast view of) the operand -/
+def BackOK (x' x : Q K) : Prop :=
+  (∀ o ds, x'.back = .to o ds →
+    (∀ k d, lookupD ds k = some d → d.shape = o.shape) ∧
+    ∀ j, pcellAt o ds (bidx o.shape j) = x.cellB j) ∧
+  (x'.obj.shape ≠ [] → ∃ o ds, x'.back = .to o ds)
+
+theorem plain_wf (x : Q K) (hwf : x.WF) : ∀ k d, lookupD x.plainDerivs k = some d → d.shape = x.obj.shape := by
+  intro k d hk
+  simp only [Q.plainDerivs, lookupD_mapVals] at hk
+  cases hx : lookupD x.derivs k <;> simp only [hx, Option.map_none, Option.map_some] at hk
+  · cases hk
+  · cases hk; exact hwf k _ hx
+
+theorem plain_cellB (x : Q K) (j : Index) : pcellAt x.obj x.plainDerivs (bidx x.obj.shape j) = x.cellB j :=
+  (cellAt_plain x _).symm
+
+theorem finish_spec (df : Dflt K) (recur : Arr Bool → DObj K → Option (DObj K)) (am : Arr Bool)
+    (x2 x' : Q K) (pre gpre : Shape)
+    (hx : x2.obj.shape = pre ++ am.shape) (hG : bcast pre gpre = some gpre) (hwf : x2.WF)
+    (hrep : x2.obj.rep ≠ .allT)
+    (hrec : ∀ k d d', lookupD x2.derivs k = some d → recur am d = some d' →
+      ∀ p a, a ∈ trues am → Valid gpre p →
+        (d'.obj.dcellAt (bidx d'.obj.shape (p ++ [rnk am a]))).obs
+          = (d.obj.dcellAt (bidx d.obj.shape (p ++ a))).obs)
+    (h : finishShrink df recur pre.length am x2 = some x') :
+    (x'.keys = x2.keys ∧ x'.cls = x2.cls ∧ x'.WF ∧ ShrFits am gpre x'.obj.shape ∧ BackOK x' x2) ∧
+    ∀ p a, a ∈ trues am → Valid gpre p →
+      Cell.Same (x'.cellB (p ++ [rnk am a])) (x2.cellB (p ++ a)) := by
+  have hbk : ∀ (y : Q K), y.back = .to x2.obj x2.plainDerivs → BackOK y x2 := by
+    intro y hy
+    refine ⟨fun o ds e => ?_, fun _ => ⟨_, _, hy⟩⟩
+    rw [hy] at e; cases e
+    exact ⟨plain_wf x2 hwf, plain_cellB x2⟩
+  simp only [finishShrink] at h
+  have hsh : List.take pre.length x2.obj.shape = pre := by simp [hx]
+  -- the gathered mask agrees with the operand's mask at corresponding positions
+  generalize hgm : gatherMask pre.length am x2.obj = gm at h
+  unfold gatherMask at hgm
+  have hgm_at : ∀ q a, a ∈ trues am → gm.get (q ++ [rnk am a]) = x2.obj.maskAt (q ++ a) := by
+    intro q a ha
+    subst hgm
+    cases hr : x2.obj.rep
+    · exact absurd hr hrep
+    · simp [npGather, Arr.const, Obj.maskAt, hr]
+    · simp [npGather, Obj.maskAt, hr, sel_rnk ha]
+  have hgm_valid : ∀ q a, a ∈ trues am → Valid pre q → Valid gm.shape (q ++ [rnk am a]) ∨ x2.obj.rep = .allF := by
+    intro q a ha hq
+    subst hgm
+    cases hr : x2.obj.rep
+    · exact absurd hr hrep
+    · exact Or.inr rfl
+    · left
+      simp only [npGather, hsh]
+      exact valid_append _ _ _ _ hq ⟨rnk_lt ha, trivial⟩
+  have hcellB : ∀ p a, a ∈ trues am → x2.cellB (p ++ a) = x2.cellAt (bidx pre p ++ a) := by
+    intro p a ha
+    simp only [Q.cellB, hx, bidx_append _ _ _ _ (trues_length ha), bidx_valid _ _ (mem_trues ha).1]
+  split at h
+  · -- the gathered mask is all True: the stand-in
+    next hall =>
+    cases h
+    refine ⟨⟨keys_maskedSingle df x2, rfl, maskedSingle_wf df x2, shrFits_nil am gpre, hbk _ rfl⟩, ?_⟩
+    intro p a ha hp
+    refine Cell.Same.of_masked rfl ?_
+    rw [hcellB p a ha]
+    simp only [Q.cellAt]
+    have hvp : Valid pre (bidx pre p) := valid_bidx _ _ _ hG hp
+    rw [← hgm_at _ a ha]
+    rcases hgm_valid _ a ha hvp with hv | hr
+    · exact allOver_at hall hv
+    · exfalso
+      subst hgm
+      simp only [hr, npGather, Arr.const] at hall
+      have := allOver_at hall (i := [rnk am a]) (by simpa using ⟨rnk_lt ha, trivial⟩)
+      simp at this
+  · next hall =>
+    cases hmd : mapDerivs (fun (d : DObj K) => (recur am d).bind (insertDeriv
+        (npGather pre.length am ⟨x2.obj.shape, x2.obj.vals⟩).shape)) x2.derivs <;> simp only [hmd] at h
+    · cases h
+    · next ds =>
+      cases h
+      have hshape : (npGather pre.length am ⟨x2.obj.shape, x2.obj.vals⟩).shape = pre ++ [count am] := by
+        simp [npGather, hsh]
+      refine ⟨⟨?_, rfl, ?_, ?_, hbk _ rfl⟩, ?_⟩
+      · simp only [Q.keys]; exact keys_mapDerivs _ _ _ hmd
+      · intro k d hk
+        have hl := lookupD_mapDerivs _ _ _ hmd k
+        rw [hl] at hk
+        cases hx0 : lookupD x2.derivs k <;> simp only [hx0, Option.bind_none, Option.bind_some] at hk
+        · cases hk
+        · next d0 =>
+          cases hr : recur am d0 <;> simp only [hr, Option.bind_none, Option.bind_some] at hk
+          · cases hk
+          · exact (insertDeriv_spec _ _ _ hk).1
+      · show ShrFits am gpre (npGather pre.length am ⟨x2.obj.shape, x2.obj.vals⟩).shape
+        rw [hshape]; exact shrFits_snoc am gpre pre hG
+      · intro p a ha hp
+        have hk := rnk_lt ha
+        have hvp : Valid pre (bidx pre p) := valid_bidx _ _ _ hG hp
+        rw [hcellB p a ha]
+        simp only [Q.cellB, hshape, bidx_singleton _ _ _ _ hk]
+        apply same_of_parts
+        · -- values and mask bit
+          simp only [Obj.dcellAt, npGather, List.dropLast_concat, List.getLastD_concat, sel_rnk ha]
+          congr 1
+          rw [← hgm_at _ a ha]
+          simp only [Obj.maskAt]
+          by_cases hany : anyOver gm.shape gm.get = true
+          · simp only [hany, ↓reduceIte]
+          · simp only [hany]
+            have hf : gm.get (bidx pre p ++ [rnk am a]) = false := by
+              rcases hgm_valid _ a ha hvp with hv | hr
+              · cases hc : gm.get (bidx pre p ++ [rnk am a]) with
+                | false => rfl
+                | true => exact absurd (anyOver_of_mem hv hc) hany
+              · rw [hgm_at _ a ha]; simp [Obj.maskAt, hr]
+            rw [hf]; rfl
+        · -- derivatives
+          intro k
+          simp only [derivAt]
+          cases hx0 : lookupD x2.derivs k with
+          | none => rw [lookupD_mapDerivs_none _ _ _ hmd k hx0]
+          | some d0 =>
+            obtain ⟨d2, hg, hl2⟩ := lookupD_mapDerivs_some _ _ _ hmd k d0 hx0
+            rw [hl2]
+            cases hr : recur am d0 <;> simp only [hr, Option.bind_none, Option.bind_some] at hg
+            · cases hg
+            · next d' =>
+              have hd0 : d0.obj.shape = pre ++ am.shape := (hwf k d0 hx0).trans hx
+              have := hrec k d0 d' hx0 hr p a ha hp
+              rw [hd0, bidx_append _ _ _ _ (trues_length ha), bidx_valid _ _ (mem_trues ha).1] at this
+              rw [← this, ← bidx_singleton _ _ _ _ hk, ← hshape]
+              exact congrArg DCell.obs ((insertDeriv_spec _ _ _ hg).2 (p ++ [rnk am a]))
+
+/-! ### shrink -/
+
+theorem anyOver_exists {s : Shape} {p : Index → Bool} (h : anyOver s p = true) :
+    ∃ i, Valid s i ∧ p i = true := by
+  simp only [anyOver, List.any_eq_true] at h
+  obtain ⟨i, hi, hp⟩ := h
+  exact ⟨i, mem_indices_valid _ _ hi, hp⟩
+
+/-- if the fully-masked test answers False, the antimask has no zero-length axis -/
+theorem gone_false_pos (am : Arr Bool) (o : Obj K) (hg : gone? am o = some false) :
+    ∀ n ∈ am.shape, 0 < n := by
+  simp only [gone?] at hg
+  cases hr : o.rep <;> simp only [hr] at hg
+  · cases hg
+  · simp only [Option.some.injEq, Bool.not_eq_eq_eq_not, Bool.not_false] at hg
+    obtain ⟨i, hi, _⟩ := anyOver_exists hg
+    exact valid_pos _ _ hi
+  · cases hb : bcast am.shape o.shape <;> simp only [hb, Option.map_none, Option.map_some] at hg
+    · cases hg
+    · next g =>
+      simp only [Option.some.injEq, Bool.not_eq_eq_eq_not, Bool.not_false] at hg
+      obtain ⟨i, hi, _⟩ := anyOver_exists hg
+      have hfit : bcast am.shape g = some g := by
+        have := PMV.bcast_assoc am.shape am.shape o.shape
+        simp [PMV.bcast_self, hb] at this
+        exact this.symm
+      exact valid_pos _ _ (valid_bidx _ _ _ hfit hi)
+
+/-- the contract of the function `shrink` uses for the derivatives -/
+def DSpec (am : Arr Bool) (gpre : Shape) (recur : Arr Bool → DObj K → Option (DObj K)) : Prop :=
+  ∀ d d' pre, recur am d = some d' → d.obj.shape = pre ++ am.shape → bcast pre gpre = some gpre →
+    ∀ p a, a ∈ trues am → Valid gpre p →
+      (d'.obj.dcellAt (bidx d'.obj.shape (p ++ [rnk am a]))).obs
+        = (d.obj.dcellAt (bidx d.obj.shape (p ++ a))).obs
+
+theorem shrinkG_spec (df : Dflt K) (recur : Arr Bool → DObj K → Option (DObj K)) (cfg : Cfg)
+    (am : Arr Bool) (x x' : Q K) (gpre : Shape)
+    (hdis : cfg.disable = false) (hwf : x.WF)
+    (hfit : bcast x.obj.shape (gpre ++ am.shape) = some (gpre ++ am.shape))
+    (hrec : DSpec am gpre recur)
+    (h : shrinkG df recur cfg (.arr am) x = some x') :
+    (x'.keys = x.keys ∧ x'.cls = x.cls ∧ x'.WF ∧ ShrFits am gpre x'.obj.shape ∧ BackOK x' x) ∧
+    ∀ p a, a ∈ trues am → Valid gpre p →
+      Cell.Same (x'.cellB (p ++ [rnk am a])) (x.cellB (p ++ a)) := by
+  unfold shrinkG at h
   simp only [hdis, Bool.false_eq_true, ↓reduceIte] at h
   split at h
   · cases h
-  · -- fully masked on the antimask: the stand-in
-    next hg =>
+  · next hg =>
     cases h
-    refine Cell.Same.of_masked rfl ?_
-    rw [hxB]
-    simp only [gone?] at hg
-    simp only [Q.cellAt, Obj.maskAt]
-    cases hr : x.obj.rep <;> simp only [hr] at hg ⊢
-    · simp only [Option.some.injEq, Bool.not_eq_eq_eq_not, Bool.not_true] at hg
-      have := anyOver_of_mem (p := am.get) hva hga
-      simp [this] at hg
-    · simp only [hx, bcast_suffix, Option.map_some, Option.some.injEq, Bool.not_eq_eq_eq_not,
-        Bool.not_true] at hg
-      have hne : ¬ ((fun i => am.get (bidx am.shape i) && x.obj.antiAt (bidx (pre ++ am.shape) i))
-          (bidx pre p ++ a) = true) := fun e => by
-        have := anyOver_of_mem (p := fun i => am.get (bidx am.shape i) &&
-          x.obj.antiAt (bidx (pre ++ am.shape) i)) hi e
-        simp [this] at hg
-      simp only [bidx_short am.shape _ a (by omega), bidx_valid _ _ hva, hga, bidx_valid _ _ hi,
-        Bool.true_and, Obj.antiAt, Obj.maskAt, hr, Bool.not_eq_true', Bool.not_eq_false] at hne
-      exact hne
+    refine ⟨⟨keys_maskedSingle df x, rfl, maskedSingle_wf df x, shrFits_nil am gpre, ?_⟩, ?_⟩
+    · refine ⟨fun o ds e => ?_, fun hne => absurd rfl hne⟩
+      by_cases hdc : cfg.disableCache = true
+      · simp [hdc] at e
+      · simp only [hdc, Bool.false_eq_true, ↓reduceIte, Back.to.injEq] at e
+        obtain ⟨rfl, rfl⟩ := e
+        exact ⟨plain_wf x hwf, plain_cellB x⟩
+    intro p a ha hp
+    exact Cell.Same.of_masked rfl (gone_masked am x gpre hfit hg p a ha hp)
   · next hg =>
     split at h
-    · -- shapeless pass-through
-      next hs0 =>
+    · next hs0 =>
       cases h
-      simp only [Q.cellB, hs0, bidx, List.reverse_nil, bidxRev_nil_left]
-      exact ⟨rfl, fun _ => ⟨rfl, fun _ => rfl⟩⟩
-    · rw [reconcile_aligned am x pre hx] at h
-      unfold finishShrink at h
-      simp only [hder, mapM'] at h
-      have hk := rnk_lt ha
-      have hi' : Valid (pre ++ [count am]) (bidx pre p ++ [rnk am a]) :=
-        valid_append _ _ _ _ hvp ⟨hk, trivial⟩
-      have hsh : List.take pre.length x.obj.shape = pre := by simp [hx]
-      rw [hxB]
-      cases hr : x.obj.rep <;> simp only [hr] at h
-      · simp [gone?, hr] at hg
-      · -- scalar mask False: the gathered mask is all False
-        split at h
-        · next hall =>
-          exfalso
-          simp only [npGather, Arr.const] at hall
-          have := allOver_at hall (i := [rnk am a]) (by simpa using ⟨hk, trivial⟩)
-          simp at this
-        · cases h
-          simp only [Q.cellB, npGather, hsh, bidx_singleton _ _ _ _ hk]
-          simp only [Q.cellAt, hder, lookupD, List.dropLast_concat, List.getLastD_concat, sel_rnk ha]
-          refine ⟨?_, fun _ => ⟨rfl, fun _ => rfl⟩⟩
-          simp only [Obj.maskAt, hr, Arr.const]
-          simp only [List.take_zero, List.nil_append]
-          by_cases hb : (anyOver [count am] fun _ => false) = true <;> simp only [hb] <;> rfl
-      · -- array mask
-        have hm : (npGather pre.length am ⟨x.obj.shape, x.obj.mbits⟩).get (bidx pre p ++ [rnk am a])
-            = x.obj.maskAt (bidx pre p ++ a) := by
-          simp [npGather, Obj.maskAt, hr, sel_rnk ha]
-        have hv : Valid (npGather pre.length am ⟨x.obj.shape, x.obj.mbits⟩).shape
-            (bidx pre p ++ [rnk am a]) := by simpa [npGather, hsh] using hi'
-        split at h
-        · next hall =>
-          cases h
-          refine Cell.Same.of_masked rfl ?_
-          simp only [Q.cellAt]
-          rw [← hm]; exact allOver_at hall hv
-        · cases h
-          simp only [Q.cellB, npGather, hsh, bidx_singleton _ _ _ _ hk]
-          simp only [Q.cellAt, hder, lookupD, List.dropLast_concat, List.getLastD_concat, sel_rnk ha]
-          refine ⟨?_, fun _ => ⟨rfl, fun _ => rfl⟩⟩
-          have hm2 : x.obj.mbits (bidx pre p ++ a) = x.obj.maskAt (bidx pre p ++ a) := by
-            simp [Obj.maskAt, hr]
-          simp only [npGather, hsh] at hm hv
-          by_cases hany : anyOver (pre ++ [count am])
-              (fun i => x.obj.mbits (List.dropLast i ++ sel am (List.getLastD i 0))) = true
-          · simp only [Obj.maskAt, hany, ↓reduceIte, hr, List.dropLast_concat, List.getLastD_concat,
-              sel_rnk ha]
-          · simp only [Obj.maskAt, hany, ↓reduceIte, hr]
-            cases hc : x.obj.mbits (bidx pre p ++ a) with
-            | false => rfl
-            | true =>
-              exfalso; apply hany
-              exact anyOver_of_mem (p := fun i => x.obj.mbits (List.dropLast i ++ sel am (List.getLastD i 0)))
-                hv (by simpa [sel_rnk ha] using hc)
-theorem keys_maskedSingle (df : Dflt K) (x : Q K) : (x.maskedSingle df).keys = x.keys := by
-  simp [Q.keys, Q.maskedSingle, List.map_map, Function.comp_def]
+      refine ⟨⟨rfl, rfl, hwf, ?_, ?_⟩, ?_⟩
+      · show ShrFits am gpre x.obj.shape
+        rw [hs0]; exact shrFits_nil am gpre
+      · exact ⟨fun o ds e => (nomatch e), fun hne => absurd hs0 hne⟩
+      · intro p a _ _
+        simp only [Q.cellB, hs0, bidx, List.reverse_nil, bidxRev_nil_left]
+        exact ⟨rfl, fun _ => ⟨rfl, fun _ => rfl⟩⟩
+    · cases hrc : reconcile am x <;> simp only [hrc] at h
+      · cases h
+      · next r =>
+        obtain ⟨extras, a2, x2⟩ := r
+        obtain ⟨pre, rfl, rfl, hx2, hG, hwf2, hk2, hc2, hr2, hcell⟩ :=
+          reconcile_spec am x gpre extras a2 x2 hwf hfit (gone_false_pos am x.obj hg) hrc
+        have hrep : x2.obj.rep ≠ .allT := by
+          rw [hr2]; intro e; simp [gone?, e] at hg
+        obtain ⟨⟨hk, hc, hw, hf, hb1, hb2⟩, hsame⟩ := finish_spec df recur a2 x2 x' pre gpre hx2 hG hwf2 hrep
+          (fun k d d' hk hr p a ha hp => hrec d d' pre hr ((hwf2 k d hk).trans hx2) hG p a ha hp) h
+        refine ⟨⟨hk.trans hk2, hc.trans hc2, hw, hf,
+          fun o ds e => ⟨(hb1 o ds e).1, fun j => ((hb1 o ds e).2 j).trans (hcell j)⟩, hb2⟩, ?_⟩
+        intro p a ha hp
+        rw [← hcell]; exact hsame p a ha hp
 
-/-- `shrink` keeps the class and (here: the empty set of) derivative keys -/
-theorem shrink_keys_cls (df : Dflt K) (cfg : Cfg) (am : Arr Bool) (x x' : Q K) (pre : Shape)
-    (hdis : cfg.disable = false) (hder : x.derivs = [])
-    (hx : x.obj.shape = pre ++ am.shape)
-    (h : shrink df cfg (.arr am) x = some x') : x'.keys = x.keys ∧ x'.cls = x.cls := by
-  unfold shrink shrinkG at h
-  simp only [hdis, Bool.false_eq_true, ↓reduceIte] at h
-  split at h
+theorem dspec_none (am : Arr Bool) (gpre : Shape) : DSpec (K := K) am gpre (fun _ _ => none) := by
+  intro d d' pre h; cases h
+
+theorem toQ_wf (d : DObj K) : d.toQ.WF := by
+  intro k d0 hk; simp [DObj.toQ, lookupD] at hk
+
+/-- `deriv.shrink(antimask)` meets the contract -/
+theorem dspec_shrinkD (df : Dflt K) (cfg : Cfg) (am : Arr Bool) (gpre : Shape)
+    (hdis : cfg.disable = false) : DSpec am gpre (shrinkD df cfg) := by
+  intro d d' pre h hsh hG p a ha hp
+  unfold shrinkD at h
+  cases hs : shrinkG df (fun _ _ => none) cfg (.arr am) d.toQ <;>
+    simp only [hs, Option.map_none, Option.map_some] at h
   · cases h
-  · cases h; exact ⟨keys_maskedSingle df x, rfl⟩
-  · split at h
-    · cases h; exact ⟨rfl, rfl⟩
-    · rw [reconcile_aligned am x pre hx] at h
-      unfold finishShrink at h
-      simp only [hder, mapM'] at h
-      cases hr : x.obj.rep <;> simp only [hr] at h <;> split at h <;> cases h <;>
-        first
-        | exact ⟨by simp [Q.keys, Q.maskedSingle, hder], rfl⟩
-        | exact ⟨by simp [Q.keys, hder], rfl⟩
+  · next y =>
+    cases h
+    have hfit : bcast d.toQ.obj.shape (gpre ++ am.shape) = some (gpre ++ am.shape) := by
+      show bcast d.obj.shape _ = _
+      rw [hsh]; exact fit_join _ _ _ _ rfl hG (PMV.bcast_self _)
+    have := (shrinkG_spec df _ cfg am d.toQ y gpre hdis (toQ_wf d) hfit (dspec_none am gpre) hs).2 p a ha hp
+    exact same_main_obs this
+
+/-- `Qube.shrink` (array antimask, shrinking enabled): all shapes that fit the grid, all mask
+    representations, all branches, derivatives included -/
+theorem shrink_spec (df : Dflt K) (cfg : Cfg) (am : Arr Bool) (x x' : Q K) (gpre : Shape)
+    (hdis : cfg.disable = false) (hwf : x.WF)
+    (hfit : bcast x.obj.shape (gpre ++ am.shape) = some (gpre ++ am.shape))
+    (h : shrink df cfg (.arr am) x = some x') :
+    (x'.keys = x.keys ∧ x'.cls = x.cls ∧ x'.WF ∧ ShrFits am gpre x'.obj.shape ∧ BackOK x' x) ∧
+    ∀ p a, a ∈ trues am → Valid gpre p →
+      Cell.Same (x'.cellB (p ++ [rnk am a])) (x.cellB (p ++ a)) :=
+  shrinkG_spec df _ cfg am x x' gpre hdis hwf hfit (dspec_shrinkD df cfg am gpre hdis) h
+
+/-! ### the test mode `_DISABLE_SHRINKING` -/
+
+/-- with shrinking disabled, `shrink` masks what lies outside the antimask and leaves every
+    selected element (read through broadcasting at any grid index) exactly as it is -/
+theorem shrink_disabled_spec (df : Dflt K) (cfg : Cfg) (am : Arr Bool) (x x' : Q K)
+    (hdis : cfg.disable = true) (hwf : x.WF) (h : shrink df cfg (.arr am) x = some x') :
+    x'.keys = x.keys ∧ x'.cls = x.cls ∧
+      ∀ p a, a ∈ trues am → x'.cellB (p ++ a) = x.cellB (p ++ a) := by
+  unfold shrink shrinkG at h
+  simp only [hdis, ↓reduceIte] at h
+  split at h
+  · cases h; exact ⟨rfl, rfl, fun _ _ _ => rfl⟩
+  · simp_all
+  · cases hmo : maskedOutside x.obj x.plainDerivs (.arr am) <;>
+      simp only [hmo, Option.map_none, Option.map_some] at h
+    · cases h
+    · next r =>
+      obtain ⟨o', ds'⟩ := r
+      cases h
+      obtain ⟨hk, hc⟩ := maskedOutside_spec x.obj x.plainDerivs am o' ds' (plain_wf x hwf) hmo
+      refine ⟨?_, rfl, fun p a ha => ?_⟩
+      · rw [keys_withArrays, hk, keys_plainDerivs]
+      · simp only [Q.cellB, cellAt_withArrays]
+        show pcellAt o' ds' (bidx o'.shape (p ++ a)) = _
+        rw [hc p a ha, cellAt_plain]
+
+theorem unshrink_disabled (df : Dflt K) (cfg : Cfg) (am : AM) (sh : Shape) (y : Q K)
+    (hdis : cfg.disable = true) : unshrink df cfg am sh y = some y := by
+  unfold unshrink unshrinkG; simp [hdis]
 
 end PMV.Shrink
